@@ -212,7 +212,7 @@ def run(ck):
     for i, f in fails[:3]:
         ck.report(dict(input=lines[i], implementation=iout[i], model=mout[i]), oracle=f.split(" (")[0],
                   what="grid violates " + f, key="grid:" + f.split(" (")[0])
-    if broken and not fails:
+    if broken and not ck.violations:
         i = broken[0]
         ck.report(dict(input=lines[i], implementation=iout[i], model=mout[i], n_disagreements=len(broken)),
                   unchecked="correspondence Grid.v(NumF) = uspg_4d/uspg_3d",
